@@ -283,6 +283,7 @@ func (prop) Run(t *testing.T, s *sim.Sim, res *runner.Result) {
 			st = "err"
 		}
 		s.Logf("  api %s %s %s %s changed=%v [%s]", e.Actor, e.Verb, e.Key, st, e.Changed, e.TaskLabel)
+		w.judgeIssued(e)
 	})
 	kit.SeedNames(s)
 	w.direct = simapi.NewClient(w.st, nil, nil, "user")
@@ -613,6 +614,53 @@ func (w *world) observe() {
 			w.s.Violate("C20/default-object-modified/"+k.Kind, fmt.Sprintf("pre-existing %s %s was modified by initialisation", k.Kind, k.Name))
 		}
 	}
+}
+
+// judgeIssued: a certificate the initializer issues (a TLS secret's tls.crt goes
+// from empty to filled) chains to the authority stored at that moment - the
+// existing authority is kept and new certificates are signed by it, never by
+// an authority that only exists in the memory of one run.
+func (w *world) judgeIssued(e *simapi.LogEntry) {
+	if e.Injected != "" || e.Err != nil || e.DryRun || e.Actor != "init" || e.Key.Kind != "Secret" || e.After == nil {
+		return
+	}
+	if e.Key.Name != "crossplane-tls-server" && e.Key.Name != "crossplane-tls-client" {
+		return
+	}
+	var before map[string][]byte
+	if e.Before != nil {
+		before = secretData(e.Before)
+	}
+	after := secretData(e.After)
+	if len(after["tls.crt"]) == 0 || bytes.Equal(before["tls.crt"], after["tls.crt"]) {
+		return
+	}
+	cam := w.st.Peek(simapi.ObjKey{Kind: "Secret", NS: ns, Name: "crossplane-root-ca"})
+	if cam == nil {
+		w.s.Violate("C20/certificate-issued-without-stored-ca", fmt.Sprintf("%s received a certificate while no CA secret exists", e.Key.Name))
+		return
+	}
+	caCert, err := parseCert(secretData(cam)["tls.crt"])
+	if err != nil {
+		w.s.Violate("C20/certificate-issued-without-stored-ca", fmt.Sprintf("%s received a certificate while the CA secret holds no certificate", e.Key.Name))
+		return
+	}
+	c, err := parseCert(after["tls.crt"])
+	if err != nil {
+		w.s.Violate("C20/bad-certificate/"+e.Key.Name, err.Error())
+		return
+	}
+	roots := x509.NewCertPool()
+	roots.AddCert(caCert)
+	if _, err := c.Verify(x509.VerifyOptions{Roots: roots, KeyUsages: []x509.ExtKeyUsage{x509.ExtKeyUsageAny}, CurrentTime: time.Now()}); err != nil {
+		w.s.Violate("C20/issued-certificate-does-not-chain-to-stored-ca/"+e.Key.Name, fmt.Sprintf("the certificate just issued into %s does not verify against the CA stored at that moment: %v", e.Key.Name, err))
+		return
+	}
+	if !bytes.Equal(after["ca.crt"], secretData(cam)["tls.crt"]) {
+		w.s.Violate("C20/issued-certificate-carries-another-ca/"+e.Key.Name, fmt.Sprintf("the ca.crt written into %s with a new certificate is not the stored CA", e.Key.Name))
+		return
+	}
+	w.s.Probe("issued-certificate-verified")
 }
 
 func parseCert(b []byte) (*x509.Certificate, error) {
